@@ -107,6 +107,27 @@ attributes #1 = { nounwind }
 !3 = !{%real 2.5}
 `
 
+// c12U uses attribute groups that are never defined (LLVM reads them as empty; the library keeps
+// placeholders) from several top-level entities, so their first uses fall into different
+// iterations of the translator's loops over its indices.
+const c12U = `@gu = global i32 0 #11
+declare void @u1() #7
+declare void @u2() #3
+define void @u3() #9 {
+  call void @u1() #5
+  ret void
+}
+define void @u4() #3 {
+  call void @u2() #4
+  ret void
+}
+define void @u5() #2 {
+  call void @u2() #9
+  ret void
+}
+attributes #3 = { nounwind }
+`
+
 // rejected inputs (naming faults far into the text; C2 has two faults).
 const c12C = c12A + "@bad = global i32* @undefined\n"
 const c12C2 = c12A + "@bad = global %undefinedtype* null\n@bad2 = global i32* @undefined2\n$c1 = comdat any\n"
@@ -114,7 +135,7 @@ const c12C3 = "define void @f() {\n  br label %nowhere\n}\n" + c12B
 
 var c12inputs = []struct {
 	name, text string
-}{{"A", c12A}, {"B", c12B}, {"C-rejected", c12C}, {"C2-rejected-2faults", c12C2}, {"C3-rejected", c12C3}, {"P1", c13P1}, {"P2", c13P2}}
+}{{"A", c12A}, {"B", c12B}, {"C-rejected", c12C}, {"C2-rejected-2faults", c12C2}, {"C3-rejected", c12C3}, {"P1", c13saltedN(c13P1, 7)}, {"P2", c13saltedN(c13P2, 7)}, {"U-undefined-attrgroups", c12U}}
 
 // c12outcome parses text and returns "ERR" (rejected) or the printed module.
 func c12outcome(parse func() (*ir.Module, error)) string {
@@ -605,7 +626,7 @@ func runC12(c *fw.Check) {
 		maxDev, depth = 2, 4
 		c.SetBudget(25 * 60 * 1e9)
 	}
-	for _, k := range []string{"A", "B", "P1", "P2"} {
+	for _, k := range []string{"A", "B", "P1", "P2", "U-undefined-attrgroups"} {
 		if !strings.HasPrefix(ref[k], "OK") {
 			fw.Fatalf("C12 input %s is meant to be accepted but: %s", k, fw.Trunc(ref[k], 300))
 		}
